@@ -116,7 +116,9 @@ def build(spec: dict) -> tuple[bytes, dict]:
     # ---- pass 2: emit tables
     def emit_table(t, items, used, tspec, seq, mutate=None):
         tail = tspec.get("tail", "zero")
-        total = used + (ENTRY_HDR if tail == "free" else 0) + 1
+        # the unused tail of a table always has room for one (zeroed or free) entry header: writers allocate tables in
+        # alignment-sized units and never split an entry header across the end
+        total = used + ENTRY_HDR + 1
         o, sz = alloc(total)
         buf = bytearray(sz)
         struct.pack_into("<HHHI", buf, 0, SIG_KEYTABLE, t, seq, 0)
